@@ -3,8 +3,8 @@
 # demo passes without the patch, fails with it, and the repository's own suite passes with it.
 # Appends one JSON line per seed to work/confirm_seeds.log.  Development tool.
 V="$(cd "$(dirname "$0")/.." && pwd)"
-WT=/tmp/confirm/repo
-mkdir -p /tmp/confirm "$V/work"
+CD=/tmp/confirm_$1; WT=$CD/repo
+mkdir -p $CD "$V/work"
 git -C /repo worktree prune
 [ -d "$WT" ] || git -C /repo worktree add -q --detach "$WT" HEAD || exit 2
 for name in "$@"; do
@@ -14,14 +14,14 @@ for name in "$@"; do
   demo="$d/demo.rs"; [ -f "$demo" ] || demo="$d/seed_demo.rs"
   crate=automerge; grep -q "^diff --git a/rust/hexane" "$d/patch.diff" && crate=hexane
   cp "$demo" "$WT/rust/$crate/tests/seed_demo.rs"
-  ( cd "$WT/rust" && CARGO_NET_OFFLINE=true timeout 3000 cargo test -p $crate --test seed_demo --offline >/tmp/confirm/$name.without.log 2>&1 ); rc_without=$?
+  ( cd "$WT/rust" && CARGO_NET_OFFLINE=true timeout 3000 cargo test -p $crate --test seed_demo --offline >$CD/$name.without.log 2>&1 ); rc_without=$?
   if ! git -C "$WT" apply "$d/patch.diff"; then echo "{\"seed\":\"$name\",\"error\":\"patch does not apply\"}" >> "$V/work/confirm_seeds.log"; continue; fi
-  ( cd "$WT/rust" && CARGO_NET_OFFLINE=true timeout 3000 cargo test -p $crate --test seed_demo --offline >/tmp/confirm/$name.with.log 2>&1 ); rc_with=$?
+  ( cd "$WT/rust" && CARGO_NET_OFFLINE=true timeout 3000 cargo test -p $crate --test seed_demo --offline >$CD/$name.with.log 2>&1 ); rc_with=$?
   rm -f "$WT/rust/$crate/tests/seed_demo.rs"
-  ( cd "$WT/rust" && timeout 6000 cargo nextest run --workspace --no-fail-fast --tool-config-file pb:/w/lib/nextest.toml --profile pb --test-threads 8 --offline >/tmp/confirm/$name.suite.log 2>&1 ); rc_suite=$?
-  summary="$(grep -E "Summary" /tmp/confirm/$name.suite.log | tail -1 | sed 's/"/ /g')"
+  ( cd "$WT/rust" && timeout 6000 cargo nextest run --workspace --no-fail-fast --tool-config-file pb:/w/lib/nextest.toml --profile pb --test-threads 8 --offline >$CD/$name.suite.log 2>&1 ); rc_suite=$?
+  summary="$(grep -E "Summary" $CD/$name.suite.log | tail -1 | sed 's/"/ /g')"
   echo "{\"seed\":\"$name\",\"demo_without_patch_rc\":$rc_without,\"demo_with_patch_rc\":$rc_with,\"suite_with_patch_rc\":$rc_suite,\"suite\":\"$summary\"}" >> "$V/work/confirm_seeds.log"
 done
 ( cd "$WT" && git checkout -q -- . )
 git -C /repo worktree remove --force "$WT"
-rm -rf /tmp/confirm
+rm -rf $CD
